@@ -15,7 +15,9 @@ import (
 	"fmt"
 	"strings"
 	"testing"
+	"time"
 
+	cfg "github.com/tendermint/tendermint/config"
 	vg "github.com/tendermint/tendermint/internal/verifgen"
 	"github.com/tendermint/tendermint/p2p"
 	tmproto "github.com/tendermint/tendermint/proto/tendermint/types"
@@ -801,4 +803,47 @@ func c03Run(r *vg.Rand, k int) (term, descr string, allDecided bool, kind string
 		fmt.Fprintf(&d, " prefix: round-structured adversary, opening %q, faulty activity during synchrony %d%%;", opName, syncByz)
 	}
 	return term, d.String(), allDecided, kind
+}
+
+// ---------------------------------------------------------------- C03: the timeout schedule
+
+// TestVerifC03Timeouts records ConsensusConfig.Propose/Prevote/Precommit(round) for the default
+// configuration, the test configuration and PRNG-drawn ones: the timeouts must grow with the round
+// (that is what lets a slow network catch up with the rounds).
+func TestVerifC03Timeouts(t *testing.T) {
+	root := vg.NewRand(vg.Seed() ^ 0xc03f)
+	cs := vg.NewCases("C03", "c03_timeouts", "TM.C03.Exec")
+	mk := func(kind string, c *cfg.ConsensusConfig) {
+		id := cs.NextID()
+		if !cs.Want(id) {
+			return
+		}
+		var rows []string
+		descr := fmt.Sprintf("%s: propose %v+%v/round prevote %v+%v/round precommit %v+%v/round;", kind,
+			c.TimeoutPropose, c.TimeoutProposeDelta, c.TimeoutPrevote, c.TimeoutPrevoteDelta, c.TimeoutPrecommit, c.TimeoutPrecommitDelta)
+		for _, r := range []int32{0, 1, 2, 3, 4, 7, 8, 100, 1000} {
+			p, v, pc := c.Propose(r), c.Prevote(r), c.Precommit(r)
+			rows = append(rows, vg.Tup(vg.Z(int64(r)), vg.Tup(vg.Z(int64(p)), vg.Z(int64(v)), vg.Z(int64(pc)))))
+			descr += fmt.Sprintf(" r=%d: %v %v %v;", r, p, v, pc)
+		}
+		cs.Add(id, "timeouts/"+kind, true,
+			vg.App("CTimeouts",
+				vg.Tup(vg.Z(int64(c.TimeoutPropose)), vg.Z(int64(c.TimeoutPrevote)), vg.Z(int64(c.TimeoutPrecommit))),
+				vg.Tup(vg.Z(int64(c.TimeoutProposeDelta)), vg.Z(int64(c.TimeoutPrevoteDelta)), vg.Z(int64(c.TimeoutPrecommitDelta))),
+				vg.L(rows)), descr)
+	}
+	mk("default", cfg.DefaultConsensusConfig())
+	mk("test", cfg.TestConsensusConfig())
+	for k := 0; k < vg.Scale(6, 200); k++ {
+		r := root.Fork(uint64(k))
+		c := cfg.DefaultConsensusConfig()
+		ms := func(max int) time.Duration { return time.Duration(1+r.Intn(max)) * time.Millisecond }
+		c.TimeoutPropose, c.TimeoutProposeDelta = ms(5000), ms(1000)
+		c.TimeoutPrevote, c.TimeoutPrevoteDelta = ms(3000), ms(1000)
+		c.TimeoutPrecommit, c.TimeoutPrecommitDelta = ms(3000), ms(1000)
+		mk("random", c)
+	}
+	if err := cs.Write(); err != nil {
+		t.Fatal(err)
+	}
 }
